@@ -115,6 +115,14 @@ def add_header_to_file(
     with open(path, "r", encoding="utf-8", newline="") as fp:
         text = fp.read()
 
+    # A byte order mark is not part of the text. It stays the very first
+    # character of the file; the header (and a shebang) is looked for, and
+    # placed, after it.
+    byte_order_mark = ""
+    if text.startswith("\ufeff"):
+        byte_order_mark = "\ufeff"
+        text = text[1:]
+
     # Ideally, this check is done elsewhere. But that would necessitate reading
     # the file contents before this function is called.
     if skip_existing and contains_reuse_info(text):
@@ -170,7 +178,7 @@ def add_header_to_file(
         result = 1
     else:
         with open(path, "w", encoding="utf-8", newline=line_ending) as fp:
-            fp.write(output)
+            fp.write(byte_order_mark + output)
         # TODO: This may need to be rephrased more elegantly.
         out.write(_("Successfully changed header of {path}").format(path=path))
         out.write("\n")
